@@ -39,6 +39,7 @@ const modPath = "github.com/segmentio/kafka-go"
 type report struct {
 	Files            []string       `json:"instrumented_files"`
 	CopiedUnchanged  []string       `json:"copied_unchanged"`
+	ResetGlobals     []string       `json:"reset_globals"`
 	Counts           map[string]int `json:"counts"`
 	SkippedMapRanges []string       `json:"skipped_map_ranges"`
 	SkippedSites     []string       `json:"skipped_sites"`
@@ -100,6 +101,23 @@ func main() {
 	conf.Check(modPath, fset, files, info) // errors ignored
 
 	overlay := map[string]string{}
+	// process-wide caches of the root package (package-level atomic.Value
+	// variables, e.g. the Writer's partition list cache) are emptied at the
+	// start of every run, so that a run never depends on the runs before it
+	if pkgName, globals := atomicValueGlobals(files); len(globals) > 0 {
+		var b bytes.Buffer
+		fmt.Fprintf(&b, "package %s\n\nimport (\n\t\"sync/atomic\"\n\n\tzsimrt \"%s/zsimrt\"\n)\n\nfunc init() {\n\tzsimrt.OnRunStart(func() {\n", pkgName, modPath)
+		for _, g := range globals {
+			fmt.Fprintf(&b, "\t\t%s = atomic.Value{}\n", g)
+		}
+		b.WriteString("\t})\n}\n")
+		dst := filepath.Join(*out, "root", "zsim_globals.go")
+		if err := os.WriteFile(dst, b.Bytes(), 0o644); err != nil {
+			die("%v", err)
+		}
+		overlay[filepath.Join("/repo", "zsim_globals.go")] = dst
+		rep.ResetGlobals = globals
+	}
 	if *plain {
 		if filepath.Clean(*repo) != "/repo" {
 			for _, n := range names {
@@ -207,6 +225,34 @@ func selectrandn(n uint32) uint32 {
 	return uint32(((z >> 32) * uint64(n)) >> 32)
 }
 `
+
+// atomicValueGlobals lists the package-level variables declared as
+// `var x atomic.Value` (no initialiser) in the given files.
+func atomicValueGlobals(files []*ast.File) (pkg string, names []string) {
+	for _, f := range files {
+		pkg = f.Name.Name
+		for _, d := range f.Decls {
+			gd, ok := d.(*ast.GenDecl)
+			if !ok || gd.Tok != token.VAR {
+				continue
+			}
+			for _, sp := range gd.Specs {
+				vs := sp.(*ast.ValueSpec)
+				se, ok := vs.Type.(*ast.SelectorExpr)
+				if !ok || len(vs.Values) != 0 {
+					continue
+				}
+				if x, ok := se.X.(*ast.Ident); ok && x.Name == "atomic" && se.Sel.Name == "Value" {
+					for _, n := range vs.Names {
+						names = append(names, n.Name)
+					}
+				}
+			}
+		}
+	}
+	sort.Strings(names)
+	return
+}
 
 func patchRuntimeSelect(out string, overlay map[string]string) error {
 	goroot := runtime.GOROOT()
